@@ -35,14 +35,10 @@ pub fn byte_xor(arr1: &[u8], arr2: &[u8]) -> Vec<u8> {
 }
 
 pub fn get_crypto_rng() -> ChaCha20Rng {
+    let rng = ChaCha20Rng::from_entropy();
     #[cfg(blsful_verif)]
-    {
-        let rng = ChaCha20Rng::from_entropy();
-        crate::verif_hooks::rng_created(rng.clone());
-        return rng;
-    }
-    #[cfg(not(blsful_verif))]
-    ChaCha20Rng::from_entropy()
+    crate::verif_hooks::rng_created(rng.clone());
+    rng
 }
 
 pub fn pairing_g1_g2(points: &[(G1Projective, G2Projective)]) -> Gt {
